@@ -271,8 +271,9 @@ class View:
                             "script": c["scripts"][x] if x < len(c["scripts"]) else c["default"]})
 
     def delivered(self, x):
-        """time at which a response was handed to the waiting sender, or None"""
-        d = [e["t_ret"] for e in self.xs[x]["inj"] if e["had"] and e["t_ret"] >= 0]
+        """None, or the time at which the response that reached the waiting sender was handed to HandlePFCPMsg
+        (the sender may run on before the reader has returned, so the return time is no bound for what follows)"""
+        d = [e["t"] for e in self.xs[x]["inj"] if e["had"] and e["t_ret"] >= 0]
         return min(d) if d else None
 
 
@@ -369,7 +370,7 @@ def timing_monitor(c, o):
         # S5: dead only when every transmission went unanswered; then the sessions are removed
         bad_resp = typ == ASR and (X["script"].get("cause", 0) not in (0, ACCEPTED) or X["script"].get("omit_ts"))
         if is_last and v.own_teardown:
-            if dl is not None and dl <= v.teardown_t:
+            if dl is not None:
                 if not bad_resp:
                     add("torn-down-although-answered", f"exchange {x} was answered at {dl} us, Shutdown ran at {v.teardown_t} us", True)
             else:
@@ -440,7 +441,7 @@ def timing_to_coq(c, o):
             items.append((t["t"], 0, 0, "Timeout", 0))
         dl = v.delivered(x)
         is_last = x == len(v.xs) - 1
-        if is_last and v.own_teardown and (dl is None or dl > v.teardown_t):
+        if is_last and v.own_teardown and dl is None:
             items.append((v.teardown_t, 0, 0, "Timeout", 0))
         if pending_x == x:
             items.append((v.harness_shutdown, 0, 0, "Shutdown", 0))
